@@ -413,6 +413,21 @@ impl Property for C15 {
             let part = |out: &mut Outcome, idx: &[usize], label: &str| run_order(out, idx, label, false);
             let a = part(&mut out, &ident[..cut], "part A");
             let b = part(&mut out, &ident[cut..], "part B");
+            // the concatenation as two input files of one run (the first one possibly without its final newline)
+            {
+                let la: Vec<Vec<u8>> = ident[..cut].iter().map(|i| lines[*i].clone()).collect();
+                let lb: Vec<Vec<u8>> = ident[cut..].iter().map(|i| lines[*i].clone()).collect();
+                let first_nl = jusize(case, "cut", 0) % 2 == 0 || la.last().map(|l| l.is_empty()).unwrap_or(true);
+                let mut two = batch_spec(&defs, &stmt, &[gen::join_lines(&la, first_nl), gen::join_lines(&lb, true)], joined.as_deref());
+                two.format = format.clone();
+                let tr = run(&mut out, "A and B as two input files", &two, false);
+                let obs = (status_label(&tr.status), records(&tr));
+                if tr.terminated() && obs != ref_obs {
+                    out.violate("c15.split_files", format!("{}: lines 0..{} and {}.. given as two input files print {} {} but as one input {} {}", stmt, cut, cut, obs.0, show(&obs.1), ref_obs.0, show(&ref_obs.1)), features.clone());
+                    return out;
+                }
+                out.probe("two_input_files", 1);
+            }
             out.fault("split", 1);
             if a.status == Status::Ok && b.status == Status::Ok {
                 let (ta, tb, tw) = (table_by_key(&records(&a), &keys), table_by_key(&records(&b), &keys), table_by_key(&ref_obs.1, &keys));
